@@ -38,6 +38,7 @@ package ccall
 //@   ensures noswallow: len(fns) > 1 && result == nil ==> real == 0
 //@   ensures single: len(fns) == 1 && fns[0] != nil ==> result == lastret(fns[0], 0) && calls(fns[0]) == old(calls(fns[0])) + 1
 //@   ensures cancelled: len(fns) >= 1 ==> cancelled(subCtx)
+//@   ensures gavecancelled: len(fns) == 1 && fns[0] != nil ==> cancelled(lastarg(fns[0], 0))
 //@   loop 1 invariant parked: waitCh != nil && gettime(waitCh) == lastcs()
 //@   assert select 1: selects(waitCh) && selects(done(ctx)) && waitCh != nil && gettime(waitCh) == lastcs()
 //
@@ -69,6 +70,7 @@ package ccall
 //@   requires fn != nil
 //@   captured bcast != nil
 //@   ensures once: calls(fn) == old(calls(fn)) + 1
+//@   assert callback 1: lastarg(fn, 0) == subCtx
 //
 //@ closure CallConcurrently$1$1
 //@   props C17
